@@ -50,4 +50,11 @@ CLAIMED = {
               "before/after predicate, AddMount sequences by a model, and concurrent AddMount of one point by a gate that forces the check-then-store window. Sampled exploration; the window forcing is deterministic for the gated call only."),
         note="iteration orders of the mount table are sampled; a cross-mount rename whose copy fails midway (destination already truncated) is not reachable without a failing destination FS and is not injected here",
     ),
+    "C08": dict(
+        technique="property-based testing with rapid (generated states/arguments) + exhaustive enumeration inside each case of all capability subsets (generated mask types) and of every primitive-call fault index; differential oracle = the full-capability FS",
+        text=("For each generated (start state, helper call) every subset of the interfaces the helper inspects is enumerated and compared with the full-capability run (result, sentinel class, final snapshot) or must be a clean ErrNotImplemented; "
+              "then every primitive call of that run is failed in turn and the helper must not report success unless the work was verifiably done (a failing close of a written file loses the data). Subjects mem.FS and os.FS; all *File helpers on a bare file. "
+              "The subset and fault-index spaces are exhaustive per case; states/arguments are sampled."),
+        note="mem.FS itself uses the fallbacks for helpers it has no method for, so fallback-vs-method differences are only visible on the os.FS leg; RemoveAll of a directory without any Remove is excluded while known finding C08:removeall-dir-without-remove reproduces",
+    ),
 }
